@@ -294,18 +294,36 @@ def layout_sig(sig):
     return [[s["struct"], s["repr"], s["fields"]] for s in sig]
 
 
+def _sig_job(args):
+    exe, src, mdir, env = args
+    e = dict(env)
+    e["CARGO_MANIFEST_DIR"] = mdir
+    p = subprocess.run([exe, "signature", src], env=e, stdout=subprocess.PIPE, stderr=subprocess.PIPE, text=True)
+    if p.returncode != 0:
+        return {"error": p.stderr[-1500:]}
+    return {"sig": json.loads(p.stdout)}
+
+
 def repeatability(rep, tier, Ctx, exe):
-    n = 5 if tier == "quick" else 20
+    from concurrent.futures import ThreadPoolExecutor
+    n = 5 if tier == "quick" else 12
     rep.rule("repeatability", "the expander (the real cglue_gen) is run in %d fresh processes (fresh RandomState seeds) and from two different crates (CARGO_MANIFEST_DIR) over every input of the tier; the layout signature — for every generated #[repr(C)] struct the ordered list of (field, type tokens) — must be identical in every run; one case per (input, run)" % n)
     rep.assume("differences outside the layout signature (order of mod/impl items) are reported as a note, not judged")
     ins = inputs_for(tier, Ctx)
     dirs = [os.path.join(Ctx.ENGINE, "h_objbase"), os.path.join(Ctx.ENGINE, "h_runtime")]
+    jobs = [(exe, src, dirs[k % 2], Ctx.ENV) for (name, src, kind) in ins for k in range(n)]
+    with ThreadPoolExecutor(max_workers=16) as pool:
+        results = list(pool.map(_sig_job, jobs))
     text_diffs = 0
+    it = iter(results)
     for name, src, kind in ins:
         base = None
         base_full = None
         for k in range(n):
-            sig = signature(Ctx, exe, src, dirs[k % 2])
+            r = next(it)
+            if "error" in r:
+                raise Ctx.Machinery("expander signature failed on %s: %s" % (src, r["error"]))
+            sig = r["sig"]
             ls = layout_sig(sig)
             full = json.dumps(sig, sort_keys=True)
             viol = None
@@ -316,10 +334,15 @@ def repeatability(rep, tier, Ctx, exe):
                 viol = ("layout:nondeterministic_expansion", "expansion %d of %s differs from expansion 0 in the layout of %s" % (k, name, diff))
             elif full != base_full:
                 text_diffs += 1
-            rep.record("repeatability", {"input": name, "run": k, "from_crate": os.path.basename(dirs[k % 2])}, obs=[name, ls if k == 0 else "same"], nontrivial=(k > 0), violation=viol)
+            rep.record("repeatability", {"input": name, "run": k, "from_crate": os.path.basename(dirs[k % 2])}, obs=[name, k, digest_sig(ls)], nontrivial=(k > 0), violation=viol)
     rep.note("repeatability", "runs_per_input", n)
     rep.note("repeatability", "non_layout_differences_observed", text_diffs)
     return rep
+
+
+def digest_sig(ls):
+    import hashlib
+    return hashlib.sha1(json.dumps(ls, sort_keys=True).encode()).hexdigest()[:16]
 
 
 def replay_c04(replay, tier, Ctx, exe):
